@@ -123,8 +123,10 @@ static void c06_slicing_next(c06_slicing *sl, size_t *in_len, size_t *out_cap)
 		switch (sl->a) {
 		case 0: *in_len = 1; *out_cap = 1; break;                                   // 1/1
 		case 1: if (i % 2 == 0) { *in_len = 1; *out_cap = 1; } else { *in_len = 0; *out_cap = 0; } break;  // 1/1, 0/0
-		case 2: if (i % 2 == 0) { *in_len = 1; *out_cap = 0; } else { *in_len = 0; *out_cap = 1; } break;  // 1/0, 0/1
-		case 3: if (i % 3 == 0) { *in_len = 0; *out_cap = 0; } else if (i % 3 == 1) { *in_len = 1; *out_cap = 0; } else { *in_len = 0; *out_cap = 1; } break;
+		// (a coder may need input and output space in the same call to make progress, e.g. alone_decode() and
+		//  the LZMA2 encoder loop only run while *out_pos < out_size; so every pattern offers both now and then)
+		case 2: if (i % 3 == 0) { *in_len = 1; *out_cap = 0; } else if (i % 3 == 1) { *in_len = 0; *out_cap = 1; } else { *in_len = 1; *out_cap = 1; } break;
+		case 3: if (i % 4 == 0) { *in_len = 0; *out_cap = 0; } else if (i % 4 == 1) { *in_len = 1; *out_cap = 0; } else if (i % 4 == 2) { *in_len = 0; *out_cap = 1; } else { *in_len = 1; *out_cap = 1; } break;
 		case 4: *in_len = 1; *out_cap = C06_OUTBIG; break;                          // 1 byte in, roomy out
 		case 5: *in_len = C06_ALL; *out_cap = 1; break;                             // all in, 1 byte out
 		case 6: *in_len = 1; *out_cap = (i % 4 == 3) ? 1 : 0; break;                // input pushed ahead of output
@@ -177,11 +179,12 @@ typedef struct {
 	int nev;
 	struct { int ret; uint64_t tin, tout; } ev[C06_MAXEV];
 	uint64_t ncalls;
+	bool bcj;   // a BCJ (simple) filter was initialised during this run (set through the --wrap interposer)
 } c06_result;
 
 static void c06_result_reset(c06_result *r)
 {
-	r->ret = -1; r->total_in = r->total_out = 0; r->out_len = 0; r->nev = 0; r->ncalls = 0;
+	r->ret = -1; r->total_in = r->total_out = 0; r->out_len = 0; r->nev = 0; r->ncalls = 0; r->bcj = false;
 }
 
 static void c06_result_free(c06_result *r) { free(r->out); memset(r, 0, sizeof(*r)); }
@@ -218,16 +221,29 @@ static void c06_result_print(const c06_result *r, bool full)
 	if (r->nev == 0) putchar('-');
 	for (int i = 0; i < r->nev; ++i)
 		printf("%s%d@%" PRIu64 "/%" PRIu64, i ? "," : "", r->ev[i].ret, r->ev[i].tin, r->ev[i].tout);
-	printf(" bytes=%zu:%016" PRIx64, r->out_len, c06_hash(r->out, r->out_len));
+	printf(" bcj=%d bytes=%zu:%016" PRIx64, (int)r->bcj, r->out_len, c06_hash(r->out, r->out_len));
 	if (full) { printf(" hex="); hp_put_hex(r->out, r->out_len); }
 }
 
-// Comparison modes: 'f' everything; 's' status + total_in (rejected input behind a BCJ filter);
-// 'o' status + output bytes (threaded decoder on rejected input: read-ahead is timing dependent);
-// 'r' status only.
+// Comparison modes (what the property fixes):
+//   'f' everything: status, total_in, total_out, output bytes, informational events.
+//   'a' decoder: as 'f' when the input is accepted (LZMA_STREAM_END); for rejected input status, total_in and
+//       everything else too, unless a BCJ filter was involved in either run: then only status and total_in
+//       ("the bytes written by the failing call are unspecified").
+//   'm' threaded decoder: as 'f' when accepted; for rejected input status and output bytes (how far the main
+//       thread has read ahead of the failing worker is timing dependent), status only behind a BCJ filter.
+//   'i' file-info decoder: status and the resulting index (how many bytes are read around each seek
+//       legitimately depends on how much of the file each call shows).
+//   's' status + total_in;  'o' status + output;  'r' status only.
 static bool c06_result_same(const c06_result *a, const c06_result *b, char mode)
 {
 	if (a->ret != b->ret) return false;
+	bool accepted = a->ret == LZMA_STREAM_END;
+	bool bcj = a->bcj || b->bcj;
+	if (mode == 'a' && !accepted && bcj) mode = 's';
+	if (mode == 'm' && !accepted) mode = bcj ? 'r' : 'o';
+	if (mode == 'a' || mode == 'm') mode = 'f';
+	if (mode == 'i') mode = 'o';
 	if (mode == 'r') return true;
 	if (mode == 's') return a->total_in == b->total_in;
 	if (a->out_len != b->out_len || (a->out_len && memcmp(a->out, b->out, a->out_len) != 0)) return false;
